@@ -575,8 +575,7 @@ def run_obj(case: dict) -> Tuple[List[str], List[str]]:
         elif k == "check":
             p = op["pkt"]
             lines.append(f"check {p['proto']} {p['src']} {p['dst']} {o(p['sport'])} {o(p['dport'])}")
-            permitted, rule = acl.is_permitted(base.make_frame(p))
-            out.append(f"{1 if permitted else 0} {who_of(acl, rule)}")
+            out.append(base.verdict(acl, base.make_frame(p)))
         elif k == "bad":
             req = ["add_rule", "DENY", "tcp", "10.0.0.1", "NONE", 80, "10.0.0.2", "NONE", 443, op["pos"]]
             i, v = {"ip": (2, "300.1.1.1"), "wildcard": (6, "ALL"), "port-name": (4, "NOSUCHPORT"), "port-range": (7, 70000),
@@ -654,7 +653,11 @@ def run_dev(case: dict) -> Tuple[List[str], List[str], List[str]]:
     real_rx = Router.receive_frame
 
     def isp(self, frame):
-        permitted, rule = real_isp(self, frame)
+        try:
+            permitted, rule = real_isp(self, frame)
+        except Exception as e:  # noqa: BLE001 - the list raised while evaluating its rules: recorded as its answer on this frame
+            log.append(("isp", self, id(frame), frame_view(frame), None, f"exception:{type(e).__name__}"))
+            raise
         log.append(("isp", self, id(frame), frame_view(frame), permitted, who_of(self, rule)))
         return permitted, rule
 
@@ -678,7 +681,7 @@ def run_dev(case: dict) -> Tuple[List[str], List[str], List[str]]:
                 out.append("ok")
                 lines.append(frame_line("router", e[2]))
                 if nxt is not None and nxt[0] == "isp" and nxt[2] == e[1]:
-                    out.append(f"{1 if nxt[4] else 0} {nxt[5]}")
+                    out.append(nxt[5] if nxt[4] is None else f"{1 if nxt[4] else 0} {nxt[5]}")
                     denies += 0 if nxt[4] else 1
                     k += 2
                 else:
@@ -689,7 +692,7 @@ def run_dev(case: dict) -> Tuple[List[str], List[str], List[str]]:
                 lines.append(f"sel {e[1]}")
                 out.append("ok")
                 lines.append(frame_line("list", e[3]))
-                out.append(f"{1 if e[4] else 0} {e[5]}")
+                out.append(e[5] if e[4] is None else f"{1 if e[4] else 0} {e[5]}")
                 denies += 0 if e[4] else 1
                 k += 1
         n = len(log)
@@ -717,10 +720,14 @@ def run_dev(case: dict) -> Tuple[List[str], List[str], List[str]]:
                 lines += [f"sel {op['list']}", f"setimp {op['value']}"]
                 out += ["ok", "ok"]
             elif k == "ping":
-                ok = bool(hosts[op["src"]].ping(f"10.0.{op['dst'] + 1}.2"))
+                blew = False
+                try:
+                    ok = bool(hosts[op["src"]].ping(f"10.0.{op['dst'] + 1}.2"))
+                except Exception:  # noqa: BLE001 - raised inside a list (recorded by `isp` as that list's answer) or above it
+                    ok, blew = False, True
                 denies, n = flush()
                 stats["pings_ok" if ok else "pings_failed"] += 1
-                if ok != (denies == 0 and n > 0):
+                if not blew and ok != (denies == 0 and n > 0):
                     complaints.append(f"ping H{op['src']}->H{op['dst']} returned {ok} but {denies} of {n} verdicts on its frames were DENY")
             elif k == "inject":
                 frame, iface = make_injected(x, op)
